@@ -885,7 +885,7 @@ func HandleStore(deps ServerDeps, conn net.Conn, tag string, parts []string, sta
 			cleanedFlagsStr := flagSetToString(cleanedFlags)
 
 			// Move to Spam folder
-			err = MoveMessageToMailbox(userDB, messageID, state.SelectedMailboxID, "Spam", state.UserID, cleanedFlagsStr, internalDate)
+			err = MoveMessageToMailbox(userDB, messageID, state.SelectedMailboxID, uid, "Spam", state.UserID, cleanedFlagsStr, internalDate)
 			if err != nil {
 				if !errors.Is(err, ErrAlreadyInMailbox) {
 					log.Printf("Failed to move message %d to Spam: %v", messageID, err)
@@ -905,7 +905,7 @@ func HandleStore(deps ServerDeps, conn net.Conn, tag string, parts []string, sta
 			cleanedFlagsStr := flagSetToString(cleanedFlags)
 
 			// Move to INBOX
-			err = MoveMessageToMailbox(userDB, messageID, state.SelectedMailboxID, "INBOX", state.UserID, cleanedFlagsStr, internalDate)
+			err = MoveMessageToMailbox(userDB, messageID, state.SelectedMailboxID, uid, "INBOX", state.UserID, cleanedFlagsStr, internalDate)
 			if err != nil {
 				if !errors.Is(err, ErrAlreadyInMailbox) {
 					log.Printf("Failed to move message %d to INBOX: %v", messageID, err)
@@ -922,8 +922,9 @@ func HandleStore(deps ServerDeps, conn net.Conn, tag string, parts []string, sta
 		}
 
 		// Update flags in database (only if message wasn't moved)
-		updateQuery := "UPDATE message_mailbox SET flags = ? WHERE message_id = ? AND mailbox_id = ?"
-		_, err = userDB.Exec(updateQuery, updatedFlags, messageID, state.SelectedMailboxID)
+		// Address the link by its UID: the same message can be in this mailbox more than once (COPY into itself)
+		updateQuery := "UPDATE message_mailbox SET flags = ? WHERE mailbox_id = ? AND uid = ?"
+		_, err = userDB.Exec(updateQuery, updatedFlags, state.SelectedMailboxID, uid)
 		if err != nil {
 			log.Printf("Failed to update flags for message %d: %v", messageID, err)
 			continue
@@ -1158,7 +1159,7 @@ var ErrAlreadyInMailbox = errors.New("message is already in the destination mail
 
 // MoveMessageToMailbox moves a message from the current mailbox to a destination mailbox
 // Returns the new sequence number in the destination mailbox, or 0 if failed
-func MoveMessageToMailbox(userDB *sql.DB, messageID int64, sourceMailboxID int64, destMailboxName string, userID int64, flags string, internalDate string) error {
+func MoveMessageToMailbox(userDB *sql.DB, messageID int64, sourceMailboxID int64, sourceUID int64, destMailboxName string, userID int64, flags string, internalDate string) error {
 	// Get destination mailbox ID
 	var destMailboxID int64
 	err := userDB.QueryRow(`
@@ -1205,11 +1206,11 @@ func MoveMessageToMailbox(userDB *sql.DB, messageID int64, sourceMailboxID int64
 		return fmt.Errorf("failed to insert into destination: %w", err)
 	}
 
-	// Delete message from source mailbox
+	// Delete this one link from the source mailbox (another copy of the same message may live there too)
 	_, err = tx.Exec(`
 		DELETE FROM message_mailbox
-		WHERE message_id = ? AND mailbox_id = ?
-	`, messageID, sourceMailboxID)
+		WHERE mailbox_id = ? AND uid = ?
+	`, sourceMailboxID, sourceUID)
 
 	if err != nil {
 		return fmt.Errorf("failed to delete from source: %w", err)
